@@ -33,7 +33,7 @@ pub struct DesKey {
     buf: Buffer,
 }
 
-#[cfg(gufo_snmp_verif)]
+#[cfg(all(gufo_snmp_verif, not(gufo_snmp_verif_nostate)))]
 impl DesKey {
     /// (next salt counter, private buffer length)
     pub fn verif_state(&self) -> (u64, usize) {
